@@ -309,8 +309,16 @@ CONTEXTS = {
     'or': 't.a = 1 OR m.x = 2',
     'function': 'coalesce(m.x = 2, true)',
     'is-null': '(m.x = 2) IS NULL',
+    # top-level conjuncts next to other shapes of conditions: still model arguments
+    'and-or-elsewhere': 'm.x = 2 AND (t.a = 1 OR t.b = 3)',
+    'and-not-elsewhere': 'm.x = 2 AND NOT t.a = 1',
+    'and-function-elsewhere': 'm.x = 2 AND coalesce(t.a, 0) = 1',
+    'and-between-elsewhere': 't.a BETWEEN 1 AND 5 AND m.x = 2',
+    'and-in-elsewhere': 't.a IN (1, 3) AND m.x = 2',
+    'nested-and': 't.a = 1 AND (t.b = 3 AND m.x = 2)',
+    'mirrored': '2 = m.x AND t.a = 1',
 }
-TOP = {'top', 'and'}
+TOP = {'top', 'and', 'and-or-elsewhere', 'and-not-elsewhere', 'and-function-elsewhere', 'and-between-elsewhere', 'and-in-elsewhere', 'nested-and', 'mirrored'}
 
 
 def replay_attr(const_first, opname):
@@ -387,9 +395,18 @@ def context_obligations(rep):
         ap = [s for s in p.steps if isinstance(s, ApplyPredictorStep)]
         rd = ap[0].row_dict if ap else None
         consumed = bool(rd) and 'x' in rd
+        outer = [s_ for s_ in p.steps if type(s_).__name__ == 'QueryStep']
+        outer_where = ' '.join(str(getattr(outer[-1].query, 'where', '')).replace('`', '').split()) if outer else ''
         if consumed and name not in TOP:
             rep.failed(oid, 'pysym', f'the comparison inside `{cond}` becomes the model argument {rd}', function=fn, clause=clause,
                        replay={'input': sql, 'dialect': 'mindsdb', 'fires': True, 'observed': f'row_dict={rd}', 'expected': 'no model argument'})
+        elif name in TOP and not (consumed and rd.get('x') == 2):
+            rep.failed(oid, 'pysym', f'the top-level conjunct `m.x = 2` of `{cond}` does not become a model argument (row_dict={rd})', function=fn,
+                       clause='a `model column = constant` comparison that is a top-level conjunct of WHERE becomes a model argument and no longer filters the outer result',
+                       replay={'input': sql, 'dialect': 'mindsdb', 'fires': True, 'observed': f'row_dict={rd}', 'expected': "{'x': 2}"})
+        elif name in TOP and ('m.x = 2' in outer_where or '2 = m.x' in outer_where):
+            rep.failed(oid, 'pysym', f'`m.x = 2` was handed to the model but still filters the outer result: `{outer_where}`', function=fn, clause=clause,
+                       replay={'input': sql, 'dialect': 'mindsdb', 'fires': True, 'observed': f'outer WHERE `{outer_where}`', 'expected': 'the condition neutralised'})
         else:
             rep.proved(oid, 'pysym', f'row_dict={rd}', function=fn, clause=clause)
 
@@ -442,6 +459,8 @@ def bounded(rep, tier):
 def check(rep, tier):
     from vlib import statecensus
     statecensus.obligations(rep, 'C14', 'planner')
+    from vlib import resolverdep
+    resolverdep.obligations(rep, tier, 'C14')
     from vlib import walkerdep
     walkerdep.obligations(rep, tier, 'C14')
     rep.dropped = 'method bodies read with ast.parse; nested visitor closures executed by pysym'
